@@ -435,6 +435,8 @@ class ReorgServer:
         self.is_connected = True
         self.remote_height = len(self.chain) - 1
         self.batch_calls = 0
+        self.hold = False
+        self.pending = []
 
     async def retriable_call(self, function, *args, **kwargs):
         return await function(*args, **kwargs)
@@ -443,10 +445,8 @@ class ReorgServer:
         part = self.chain[height:height + count]
         return {'hex': b''.join(part).hex(), 'count': len(part), 'max': 2016}
 
-    async def get_transaction_batch(self, txids, restricted=True):
+    def answer_batch(self, txids, blocks):
         M = self.w.M
-        self.batch_calls += 1
-        blocks = self.tx_view if self.tx_view is not None else self.blocks
         out = {}
         for txid in txids:
             for h, raws in blocks.items():
@@ -459,6 +459,33 @@ class ReorgServer:
                     out[txid] = (raws[i].hex(), {'block_height': h, 'merkle': br, 'pos': i})
                     break
         return out
+
+    def view(self):
+        return self.tx_view if self.tx_view is not None else self.blocks
+
+    async def get_transaction_batch(self, txids, restricted=True):
+        self.batch_calls += 1
+        if not self.hold:
+            return self.answer_batch(txids, self.view())
+        # schedule family: the reply is an explicit event the harness delivers (ENV choice point)
+        import asyncio
+        fut = asyncio.get_event_loop().create_future()
+        self.pending.append(('batch', list(txids), self.view(), fut))
+        return await fut
+
+    async def get_merkle(self, tx_hash, height):
+        if not self.hold:
+            return self.answer_batch([tx_hash], self.view()).get(tx_hash, (None, {'block_height': height}))[1]
+        import asyncio
+        fut = asyncio.get_event_loop().create_future()
+        self.pending.append(('merkle', [tx_hash], self.view(), fut))
+        return await fut
+
+    def deliver(self, index, at_arrival):
+        """Resolve a pending reply: with the answer as of the request's arrival or as of now."""
+        kind, txids, arrival_view, fut = self.pending.pop(index)
+        ans = self.answer_batch(txids, arrival_view if at_arrival else self.view())
+        fut.set_result(ans if kind == 'batch' else ans.get(txids[0], (None, {'block_height': -1}))[1])
 
 
 class _StubDB:
@@ -589,9 +616,183 @@ def run_reorg_scenario(sc, res):
     return log
 
 
+# ---- schedule dimension: the reorganisation relative to a transaction request that is in flight -------------
+# The server's get_transaction_batch / get_merkle replies are explicit events on the virtual loop.  The
+# reorganisation (real receive_header / update_headers path, one replaced header) is placed before the request,
+# WHILE the reply is pending, or between / around the replies of two overlapping requests; the reply carries
+# the answer as of the request's arrival (proof for the block that is being replaced) or as of its delivery.
+
+def schedule_scenarios():
+    out = []
+    for shape, delivery in (('same-length', 'subscription'), ('longer', 'subscription'), ('longer', 'poll')):
+        for view in ('at-arrival', 'at-delivery'):
+            for entry in ('batch', 'batch-uncached', 'merkle'):
+                for order in (('reorg', 'req', 'reply'), ('req', 'reorg', 'reply'), ('req', 'reply', 'reorg')):
+                    out.append(('sched', entry, shape, delivery, view, list(order)))
+            import itertools
+            for perm in itertools.permutations(('reply1', 'reply2', 'reorg')):
+                out.append(('sched', 'overlap', shape, delivery, view, ['req1', 'req2'] + list(perm)))
+            out.append(('sched', 'overlap', shape, delivery, view, ['req1', 'reorg', 'req2', 'reply1', 'reply2']))
+            out.append(('sched', 'overlap', shape, delivery, view, ['req1', 'reorg', 'req2', 'reply2', 'reply1']))
+    return out
+
+
+def run_schedule_scenario(sc, res):
+    from vf.vloop import VLoop
+    from lbry.wallet.ledger import Ledger
+    from lbry.wallet.header import Headers
+    from lbry.wallet.transaction import Transaction
+    from refs import merkle as M
+    _, entry, shape, delivery, view, order = sc
+    w = ReorgWorld()
+
+    class SyntheticHeaders(Headers):
+        validate_difficulty = False
+        genesis_hash = None
+        checkpoints = {}
+    loop = VLoop().activate()
+    log = []
+    rep = {'family': 'reorg', 'scenario': [sc[0], entry, shape, delivery, view, list(order)]}
+    place = ('before-request' if order[0] == 'reorg' else
+             'after-all-replies' if order[-1] == 'reorg' else 'while-a-reply-is-pending')
+    sig_base = {'family': 'request-in-flight', 'entry': entry, 'reorg': place, 'new_chain': shape, 'reply': view}
+    try:
+        headers = SyntheticHeaders(':memory:')
+        loop.run(headers.open())
+        assert loop.run(headers.connect(0, b''.join(w.old_chain))) == REORG_LEN
+        server = ReorgServer(w)
+        server.hold = True
+        ledger = Ledger({'db': _StubDB(), 'headers': headers, 'network': server})
+        headers.checkpoints = {}
+        tip = REORG_LEN - 1
+        wanted = [(M.to_hex(M.sha256d(r)), h) for h in (tip - 1, tip) for r in w.txs[h]]
+        new_chain, new_blocks = w.new_chain(1, shape == 'longer')
+        state = {'reorged': False, 'adopted': False}
+
+        def local_root(h):
+            return bytes(headers.io.getbuffer())[h * 112 + 36:h * 112 + 68]
+
+        def judge(stage, txs):
+            """At the moment a call returns: verified => a supplied proof folds to the CURRENT local header."""
+            for tx in txs:
+                res.count('evaluations')
+                leaf = M.sha256d(tx.raw)
+                okp = False
+                if tx.is_verified and isinstance(tx.height, int) and 0 <= tx.height < len(headers):
+                    okp = any(pos == tx.position and M.fold([M.from_hex(x) for x in br], pos, leaf) == local_root(tx.height)
+                              for (h, pos, br) in server.supplied.get(tx.id, []))
+                line = (f'{stage} returns: tx {tx.id[:12]}.. is_verified={tx.is_verified} height={tx.height} position={tx.position}; '
+                        f'a supplied proof folds to the local header held at that moment: {okp}')
+                log.append(line)
+                if tx.is_verified and not okp:
+                    res.violation(dict(sig_base, kind='verified-against-a-header-the-wallet-no-longer-holds'),
+                                  line + f' | schedule {order} {shape} {delivery} reply {view}', rep)
+                elif tx.is_verified:
+                    res.count('verified_and_consistent')
+                    if state['reorged']:
+                        res.witness('verified_after_reorg_against_the_new_header')
+                elif (state['adopted'] or not state['reorged']) and view == 'at-delivery' and place != 'while-a-reply-is-pending':
+                    # the reply was computed from the chain the wallet holds: a genuine proof
+                    res.violation(dict(sig_base, kind='genuine-proof-rejected'), line + f' | schedule {order}', rep)
+
+        async def request(cached=entry != 'batch-uncached'):
+            # cached=True: resolve / claim_search inflation; cached=False: the address history sync path
+            got = []
+            async for txs in ledger.request_transactions(tuple(wanted), cached=cached):
+                got.extend(txs.values())
+            return got
+
+        show_tx = Transaction(w.txs[tip][0])
+
+        async def show():
+            await ledger.maybe_verify_transaction(show_tx, tip)
+            return [show_tx]
+
+        tasks = {}
+
+        def finish(name):
+            t = tasks[name]
+            if not t.done():
+                return
+            if getattr(t, '_judged', False):
+                return
+            t._judged = True
+            if t.exception() is not None:
+                res.tally(f'request-in-flight-raised-{type(t.exception()).__name__}:{place}')
+                log.append(f'{name} raised {t.exception()!r}')
+            else:
+                judge(name, t.result())
+
+        for ev in order:
+            if ev in ('req', 'req1', 'req2'):
+                tasks[ev] = loop.create_task(show() if entry == 'merkle' else request())
+                loop.drain()
+                log.append(f'{ev}: started; replies pending: {len(server.pending)}')
+            elif ev == 'reorg':
+                server.chain, server.blocks = new_chain, new_blocks
+                server.remote_height = len(new_chain) - 1
+                try:
+                    if delivery == 'subscription':
+                        top = len(new_chain) - 1
+                        loop.run(ledger.receive_header([{'height': top, 'hex': new_chain[top].hex()}]))
+                    else:
+                        loop.run(ledger.update_headers())
+                except Exception as e:   # noqa
+                    res.tally('reorg-delivery-raised-' + type(e).__name__)
+                state['reorged'] = True
+                state['adopted'] = bytes(headers.io.getbuffer())[:len(headers) * 112] == b''.join(new_chain)
+                if server.pending and state['adopted']:
+                    res.witness('header_replaced_while_a_reply_was_pending')
+                log.append(f'reorg ({shape}, {delivery}): adopted={state["adopted"]}; replies pending: {len(server.pending)}')
+            else:
+                # reply / reply1 / reply2: pending replies are in request order
+                idx = 0
+                if ev == 'reply2' and 'reply1' in order[order.index(ev):]:
+                    idx = 1 if len(server.pending) > 1 else 0
+                if not server.pending:
+                    log.append(f'{ev}: nothing pending (served from the cache)')
+                else:
+                    server.deliver(idx, view == 'at-arrival')
+                    loop.drain()
+                    log.append(f'{ev}: delivered ({view})')
+            for name in list(tasks):
+                finish(name)
+        # anything still pending is delivered, then one more cached request judged against the final chain
+        while server.pending:
+            server.deliver(0, view == 'at-arrival')
+            loop.drain()
+        for name in list(tasks):
+            finish(name)
+        if entry != 'merkle':
+            server.hold = False
+            state['adopted'] = state['adopted']
+            final = loop.run(request())
+            old_view, view_name = view, 'at-delivery'
+            judge_final = [tx for tx in final]
+            for tx in judge_final:
+                res.count('evaluations')
+                leaf = M.sha256d(tx.raw)
+                okp = tx.is_verified and any(
+                    pos == tx.position and M.fold([M.from_hex(x) for x in br], pos, leaf) == local_root(tx.height)
+                    for (h, pos, br) in server.supplied.get(tx.id, []))
+                if tx.is_verified and not okp:
+                    res.violation(dict(sig_base, kind='cached-verified-against-a-header-the-wallet-no-longer-holds'),
+                                  f'final cached request: tx {tx.id[:12]}.. is_verified=True height={tx.height} | schedule {order} '
+                                  f'{shape} {delivery} reply {view}', rep)
+        res.count('executions')
+        res.count('schedules')
+        res.distinct_add('nontrivial', ('sched', entry, shape, delivery, view, tuple(order)))
+    finally:
+        loop.shutdown()
+    return log
+
+
 def work_reorg(item, res):
     for sc in item:
-        run_reorg_scenario(tuple(sc), res)
+        if sc[0] == 'sched':
+            run_schedule_scenario(tuple(sc), res)
+        else:
+            run_reorg_scenario(tuple(sc), res)
 
 
 def w_txid(w, n, i):
@@ -610,7 +811,7 @@ def run(ctx):
     items = [(N, n, False, fsm) for n in full] + [(N, n, True, fsm) for n in spot]
     items.sort(key=lambda it: it[1])       # smallest blocks first: the violation kept per signature is the simplest
     ctx.pmap(work, items)
-    scs = [list(sc) for sc in reorg_scenarios()]
+    scs = [list(sc) for sc in reorg_scenarios()] + [list(sc) for sc in schedule_scenarios()]
     ctx.pmap(work_reorg, [scs[k::4] for k in range(4)])
     w = world(N)
     ctx.res.sample({'block_size': 3, 'index': 2, 'genuine_proof': genuine(w, 3, 2),
@@ -631,7 +832,10 @@ def run(ctx):
               'also as genuine-then-mutant and mutant-then-genuine on ONE Transaction object, final state judged like the '
               'last call.  Cache/reorg family: cached request_transactions, then 1..3 top headers replaced through '
               'receive_header / update_headers (new chain one longer or same length, honest or stale server), then the '
-              'cached request twice.  Non-trivial/distinct = distinct (mutation kind, n, i, detail, history) tuples and '
+              'cached request twice.  Schedule dimension: get_transaction_batch / get_merkle replies are explicit events; the '
+              'reorganisation (1 replaced header) is placed before the request, while the reply is pending, after it, and in '
+              'every order around the replies of two overlapping requests; reply as of arrival or as of delivery.  '
+              'Non-trivial/distinct = distinct (mutation kind, n, i, detail, history) tuples and '
               'reorg scenarios.'),
         exhaustive=True,
         bounds={'block_sizes_full': [full[0], full[-1]], 'block_sizes_reduced_sweep': spot, 'headers': w.length,
@@ -642,7 +846,8 @@ def run(ctx):
                      'the legacy claim-trie verify_proof is unused by the wallet and not covered'],
         expected_witnesses=['genuine_proof_through_duplicated_node', 'branch_of_five_or_more_levels',
                             'reorg_replaced_headers_below_cached_transactions',
-                            'cached_request_served_without_asking_the_server'],
+                            'cached_request_served_without_asking_the_server',
+                            'header_replaced_while_a_reply_was_pending', 'verified_after_reorg_against_the_new_header'],
     )
 
 
@@ -650,7 +855,8 @@ def replay(data):
     from vf.core import Result
     if data.get('family') == 'reorg':
         res = Result()
-        log = '\n'.join(run_reorg_scenario(tuple(data['scenario']), res))
+        sc = tuple(data['scenario'])
+        log = '\n'.join(run_schedule_scenario(sc, res) if sc[0] == 'sched' else run_reorg_scenario(sc, res))
         for v in res.violations.values():
             log += '\nVIOLATION: ' + v['what']
         return bool(res.violations), log
